@@ -70,3 +70,21 @@ class DetectingLock:
     def __exit__(self, *a):
         self.release()
         return False
+
+
+def lock_like(v):
+    return hasattr(v, "acquire") and hasattr(v, "release") and not isinstance(v, (DetectingLock,)) and type(v).__name__ != "SchedLock"
+
+
+def wrap_all_locks(obj, factory, prefix=None):
+    """Replace every lock-like instance attribute of `obj` (anything with acquire/release: Lock, RLock, Condition, ...) by
+    `factory(inner, name)`. Works whatever the attributes are called, so a renamed or additional lock is still observed.
+    Returns the list of wrappers."""
+    out = []
+    prefix = prefix or type(obj).__name__
+    for name, v in list(vars(obj).items()):
+        if lock_like(v):
+            w = factory(v, "%s.%s" % (prefix, name))
+            setattr(obj, name, w)
+            out.append(w)
+    return out
